@@ -352,15 +352,17 @@ def _fab_line_rule(fi, offsets_name):
             if base is None or wr is None:
                 continue
             mt = re.fullmatch(r"(\w+)\.split\(\)\[:-1\]", norm(base))
-            if not mt:
+            direct = re.fullmatch(r"(\w+)\.readline\(\)\.split\(\)\[:-1\]", norm(base))
+            if not mt and not direct:
                 continue
-            line = mt.group(1)
-            # the line variable is the line most recently read from a source
-            src = None
-            for blk2 in _blocks(fi.node):
-                for m in blk2:
-                    if isinstance(m, ast.Assign) and norm(m.targets[0]) == line and norm(m.value).endswith(".readline()"):
-                        src = m
+            src = direct
+            if mt:
+                line = mt.group(1)
+                # the line variable is the line most recently read from a source
+                for blk2 in _blocks(fi.node):
+                    for m in blk2:
+                        if isinstance(m, ast.Assign) and norm(m.targets[0]) == line and norm(m.value).endswith(".readline()"):
+                            src = m
             if src is None or len(wr.args) != 1 or norm(wr.args[0]) not in (f"' '.join({v}) + '\\n'",):
                 continue
             got.append((n.lineno, norm(n.value.args[0])))
